@@ -246,6 +246,11 @@ class TiffImageStack(NDArrayImageStack[ScalarType]):
         with tifffile.TiffFile(fname, **kwargs) as f:
             s = f.series[0]
             imgs, axes = s.asarray(), s.axes
+            declared = ((f.shaped_metadata or [{}])[0] or {}).get("axes", "")
+
+        if len(declared) == imgs.ndim + 1 and declared.startswith("Z"):
+            # a stack of a single slice written frame by frame loses its z axis
+            imgs, axes = imgs[np.newaxis], declared
 
         if len(axes) != imgs.ndim or any(c not in AXES_ORDER for c in axes):
             axes_raw = axes
